@@ -252,6 +252,39 @@ func forEachCorpusText(c *core.Ctx, opt corpusOpt, f func(family, text string) b
 		}
 		bounds = append(bounds, fmt.Sprintf("all %d^3 triples of infix operators x %d groupings of four operands", len(gen.AllInfix), len(shapes)))
 	}
+	// four operators over a representative of every precedence class, in every grouping of five operands
+	{
+		reps := []string{"+", "-", "|", "*", "/", "==", "&&", "<"}
+		shapes := []string{"a %s (b %s (c %s (d %s e)))", "a %s (b %s ((c %s d) %s e))", "a %s ((b %s c) %s (d %s e))", "a %s ((b %s (c %s d)) %s e)", "a %s (((b %s c) %s d) %s e)",
+			"(a %s b) %s (c %s (d %s e))", "(a %s b) %s ((c %s d) %s e)", "(a %s (b %s c)) %s (d %s e)", "((a %s b) %s c) %s (d %s e)", "(a %s (b %s (c %s d))) %s e",
+			"(a %s ((b %s c) %s d)) %s e", "((a %s b) %s (c %s d)) %s e", "((a %s (b %s c)) %s d) %s e", "(((a %s b) %s c) %s d) %s e"}
+		for _, o1 := range reps {
+			for _, o2 := range reps {
+				if !chk() {
+					return false, bounds
+				}
+				for _, o3 := range reps {
+					for _, o4 := range reps {
+						for _, sh := range shapes {
+							if !emit("op4", fmt.Sprintf(sh, o1, o2, o3, o4)) {
+								return false, bounds
+							}
+						}
+					}
+				}
+			}
+		}
+		bounds = append(bounds, fmt.Sprintf("all %d^4 quadruples of representative infix operators x the 14 groupings of five operands", len(reps)))
+	}
+	// deeply nested blocks and expressions (counters / indentation of the printer)
+	for _, depth := range []int{10, 100, 254, 255, 256, 257, 300, 1000} {
+		for _, form := range [][2]string{{"if a { ", " }"}, {"func() { ", " }"}, {"for a { ", " }"}, {"x => { ", " }"}, {"if a { 1 } else { ", " }"}, {"(", ")"}, {"[", "]"}, {"f(", ")"}, {"{1: ", "}"}, {"-", ""}} {
+			if !emit("deep", strings.Repeat(form[0], depth)+"b"+strings.Repeat(form[1], depth)) {
+				return false, bounds
+			}
+		}
+	}
+	bounds = append(bounds, "10 block / expression forms nested 10, 100, 254..257, 300 and 1000 deep")
 	// G-syn single statements
 	for size := 1; size <= opt.fullSize; size++ {
 		ok := full.EnumStmt(size, func(n *gen.N) bool {
